@@ -131,6 +131,10 @@ type cluster struct {
 	leaseMutex   sync.RWMutex
 	sessionMutex sync.RWMutex
 
+	// localLocks maps a mutex name to the process-local lock
+	// shared by all Mutex handles of that name.
+	localLocks sync.Map
+
 	done chan struct{}
 }
 
